@@ -360,7 +360,10 @@ func (r *sysRun) start() bool {
 	r.tty.OnDSR = func(row, col int) {
 		if plan.DsrMs < 0 {
 			// a terminal (or a bare pty) that does not answer the cursor position request
+			// fzf's first read after the request blocks until the terminal sends something (by design: with
+			// such a terminal nothing happens until the user types); the user does, once
 			c.count("fault.tty_no_dsr_answer", 1)
+			r.tty.FeedLocked([]byte(" "))
 			return
 		}
 		// the terminal answers the cursor-position request through the input queue
